@@ -207,7 +207,8 @@ def storageInSync (rep : Report) : Bool :=
     storedKeysOK && sortStrs stored == sortStrs served && sortStrs storedG == sortStrs servedG
   | _ => false
 
-def monitor (m : Mon) (coreOp : String) (isUpdate : Bool) (impl : String) : Mon × List String :=
+def monitor (m : Mon) (coreOp : String) (isUpdate : Bool) (impl : String) (restartFromClean : Option Bool := none) :
+    Mon × List String :=
   match parseReport impl with
   | none => (m, ["sig=C13.malformed-report"])
   | some rep =>
@@ -249,12 +250,23 @@ def monitor (m : Mon) (coreOp : String) (isUpdate : Bool) (impl : String) : Mon 
         else [s!"sig=C13.storage-differs-from-served served={rep.r}/{rep.g} storage={rep.st}"]
       else if !loadOK then [s!"sig=C13.restart-differs served={rep.r}/{rep.g} loaded={rep.l}"]
       else []
+    -- a restart (Initialize on the live storage): it serves what is stored, leaves the storage holding exactly that
+    -- (key repairs included), and – if storage and served agreed before – serves what was served before
+    let f7 := match restartFromClean, m.prev with
+      | some clean, some p =>
+        if rep.out != "ok" then []
+        else
+          (if sync then [] else [s!"sig=C13.restart-left-storage-differing served={rep.r}/{rep.g} storage={rep.st}"]) ++
+          (if loadOK then [] else [s!"sig=C13.restart-differs served={rep.r}/{rep.g} loaded={rep.l}"]) ++
+          (if clean && servedStr p != servedStr rep then
+            [s!"sig=C13.restart-changed-served before={p.r}/{p.g} after={rep.r}/{rep.g}"] else [])
+      | _, _ => []
     let failedSince' := if sync then false else (m.failedSince || rep.out == "err-storage")
     let failedOp' :=
       if rep.out == "err-storage" then (if m.synced || coreOp == m.failedOp then coreOp else "")
       else if isUpdate then "" else m.failedOp
     ({ m with prev := some rep, synced := sync, failedSince := failedSince', failedOp := failedOp' },
-     f1 ++ f2 ++ f3 ++ f4 ++ f5 ++ f6)
+     f1 ++ f2 ++ f3 ++ f4 ++ f5 ++ f6 ++ f7)
 
 structure DState where
   st  : St := {}
@@ -279,7 +291,7 @@ def step (d : DState) (opLine : String) (impl : String) : DState × StepOut :=
       | .ok m => (({ mgr := m, store := store } : St), "ok")
       | .error _ => ({ d.st with store := store }, "load-failed")
     let mon0 := if out == "ok" then { d.mon with failedSince := false, failedOp := "", external := false } else d.mon
-    let (mon, fails) := monitor mon0 coreOp false impl
+    let (mon, fails) := monitor mon0 coreOp false impl (some (d.mon.synced && !d.mon.external))
     ({ st := s, mon := mon }, { model := s!"{out} {obsStr s}", fails := fails })
   | ["rawput", kg, kid, r] =>
     match parseRule r with
